@@ -18,6 +18,33 @@ Leaf = Union[None, bool, int, str]
 
 
 _LRU_SIDE: dict = {}
+_LRU_OWNED: dict = {}
+
+
+def _library_cache(wrapper: Any) -> bool:
+    """Is this lru_cache wrapper part of the `jsonpath` package: it wraps one of its functions, or is bound to a name in one
+    of its modules or classes (e.g. `_loads = lru_cache(maxsize=64)(json.loads)`)?"""
+    import sys
+
+    k = id(wrapper)
+    if k in _LRU_OWNED:
+        return _LRU_OWNED[k]
+    owned = str(getattr(getattr(wrapper, "__wrapped__", None), "__module__", "")).startswith("jsonpath")
+    if not owned:
+        for name, mod in list(sys.modules.items()):
+            if not name.startswith("jsonpath") or mod is None:
+                continue
+            for v in list(vars(mod).values()):
+                if v is wrapper:
+                    owned = True
+                elif isinstance(v, type) and getattr(v, "__module__", "") == name:
+                    for cv in list(vars(v).values()):
+                        if cv is wrapper or getattr(cv, "__func__", None) is wrapper:
+                            owned = True
+            if owned:
+                break
+    _LRU_OWNED[k] = owned
+    return owned
 
 
 def _real_lru_cache() -> None:
@@ -37,7 +64,7 @@ def _real_lru_cache() -> None:
             if not isinstance(self, _lru_cache_wrapper):
                 raise TypeError
             fn = self.__wrapped__
-            if not str(getattr(fn, "__module__", "")).startswith("jsonpath"):
+            if not _library_cache(self):
                 return fn(*a, **kw)
             key = (id(self), a, tuple(sorted(kw.items())))
             if key in _LRU_SIDE:
